@@ -19,7 +19,7 @@ structure DState where
   cfg : Cfg Sketch
   cache : Cache Sketch
   dead : Bool := false
-  handles : Array (Option Nat) := #[]   -- lock id held by the h-th `acq`
+  handles : Array (Option (Nat × Nat)) := #[]   -- (key, lock id) held by the h-th `acq`
   nextId : Nat := 0
 
 def fmtLog (log : List (Nat × Bool)) : String :=
@@ -50,32 +50,35 @@ def apply (s : DState) (op : Op) : DState × String × Option Panic :=
   | .ok (c, r, log) => ({ s with cache := c }, fmtRet r ++ fmtLog log, none)
   | .error e => ({ s with dead := true }, "panic", some e)
 
-/-- `QueryLockManager::get_lock_instance` on top of the cache operations. -/
-def acquire (s : DState) (q : Nat) : DState × String × Option Panic :=
+/-- `acq q`: the model's `acquire`; the eviction log of its calls is not part of `acquire`'s result, so
+it is recomputed here by running the same `step`s on a log-collecting copy. -/
+def acquireLog (s : DState) (q : Nat) : List (Nat × Bool) :=
   match sGet s.cache.core.st q with
   | some id =>
-    -- `hot.get` clones the stored instance (now pinned), then runs its maintenance
-    let s := { s with cache := { s.cache with pins := id :: s.cache.pins } }
-    match step s.cfg s.cache (.get q) with
-    | .error e => ({ s with dead := true }, "panic", some e)
-    | .ok (c, _, log) => ({ s with cache := c, handles := s.handles.push (some id) }, s!"lock {id}" ++ fmtLog log, none)
+    match step s.cfg { s.cache with pins := id :: s.cache.pins } (.get q) with
+    | .ok (_, _, log) => log
+    | .error _ => []
   | none =>
     match step s.cfg s.cache (.get q) with
-    | .error e => ({ s with dead := true }, "panic", some e)
+    | .error _ => []
     | .ok (c, _, log1) =>
-      let id := s.nextId
-      let c := { c with pins := id :: c.pins }
-      match step s.cfg c (.ins q id) with
-      | .error e => ({ s with dead := true }, "panic", some e)
-      | .ok (c, r, log2) =>
-        let got := match r with | .occupied w => w | _ => id
-        ({ s with cache := c, nextId := id + 1, handles := s.handles.push (some got) },
-          s!"lock {got}" ++ fmtLog (log1 ++ log2), none)
+      match step s.cfg { c with pins := s.nextId :: c.pins } (.ins q s.nextId) with
+      | .ok (_, _, log2) => log1 ++ log2
+      | .error _ => log1
 
-def release (s : DState) (h : Nat) : DState × String :=
+def acquireD (s : DState) (q : Nat) : DState × String × Option Panic :=
+  let t : LockTable Sketch := { cache := s.cache, handles := [], next := s.nextId }
+  match acquire s.cfg t q with
+  | .error e => ({ s with dead := true }, "panic", some e)
+  | .ok (t', id) =>
+    ({ s with cache := t'.cache, nextId := t'.next, handles := s.handles.push (some (q, id)) },
+      s!"lock {id}" ++ fmtLog (acquireLog s q), none)
+
+def releaseD (s : DState) (h : Nat) : DState × String :=
   match s.handles[h]? with
-  | some (some id) =>
-    ({ s with cache := { s.cache with pins := s.cache.pins.erase id }, handles := s.handles.set! h none }, "ok")
+  | some (some (q, id)) =>
+    let t : LockTable Sketch := release { cache := s.cache, handles := [(q, id)], next := s.nextId } q id
+    ({ s with cache := t.cache, handles := s.handles.set! h none }, "ok")
   | _ => (s, "bad-op")
 
 def handle (fix : Bool) (st : Option DState) (line : String) : Option DState × String × Option Panic :=
@@ -103,8 +106,8 @@ def handle (fix : Bool) (st : Option DState) (line : String) : Option DState × 
       | "len", some [] => (st, s!"len {s.cache.core.st.length}", none)
       | "res", some [] =>
         (st, "res" ++ String.join ((sortKV s.cache.core.st).map fun (k, v) => s!" {k}:{v}"), none)
-      | "acq", some [q] => let (s, o, p) := acquire s q; (some s, o, p)
-      | "rel", some [h] => let (s, o) := release s h; (some s, o, none)
+      | "acq", some [q] => let (s, o, p) := acquireD s q; (some s, o, p)
+      | "rel", some [h] => let (s, o) := releaseD s h; (some s, o, none)
       | _, some ns =>
         let op : Option Op := match cmd, ns with
           | "get", [k] => some (.get k)
